@@ -1,4 +1,5 @@
 import TrionModel.Lemmas.SimpSound1
+import TrionModel.Lemmas.SimpInv
 /-!
 # Soundness of the simplifier, part 2: `neutralize_raw` and `neutralize` preserve the ideal value
 -/
@@ -152,26 +153,51 @@ theorem neutralTail_val (ρ : Env) {ch : Bool} {op : BinOp} {l r : Arg} {c : Boo
       obtain ⟨_, rfl⟩ := he
       exact neutralMain_val ρ op l r v h
 
+theorem neutralizeBin_val (ρ : Env) {op : BinOp} {l r : Arg} {c : Bool} {a' : Arg} {v : Int}
+    (he : neutralizeBin op l r = .ok (c, a')) (h : valZ ρ (.bin op l r) = some v) : valZ ρ a' = some v := by
+  simp only [neutralizeBin] at he
+  split at he
+  · rename_i hop
+    cases hn : normAddSub (decide (op = .sub)) r with
+    | ok p =>
+      obtain ⟨ch, s', r'⟩ := p
+      simp only [hn] at he
+      obtain ⟨x, y, hl, hr, ho⟩ := valZ_bin h
+      obtain ⟨y', hr', hxy⟩ := normAddSub_val ρ hn hr
+      refine neutralTail_val ρ he ?_
+      rw [valZ_bin_mk hl hr', ← ho]
+      have := hxy x
+      rcases hop with rfl | rfl <;> cases s' <;> simp [asZ, opZ] at this ⊢ <;> omega
+    | err e => simp [hn] at he
+    | panic => simp [hn] at he
+  · exact neutralTail_val ρ he h
+
 theorem neutralizeRaw_val (ρ : Env) {a : Arg} {c : Bool} {a' : Arg} {v : Int}
     (he : neutralizeRaw a = .ok (c, a')) (h : valZ ρ a = some v) : valZ ρ a' = some v := by
   cases a with
   | bin op l r =>
-    simp only [neutralizeRaw] at he
-    split at he
-    · rename_i hop
-      cases hn : normAddSub (decide (op = .sub)) r with
-      | ok p =>
-        obtain ⟨ch, s', r'⟩ := p
-        simp only [hn] at he
-        obtain ⟨x, y, hl, hr, ho⟩ := valZ_bin h
-        obtain ⟨y', hr', hxy⟩ := normAddSub_val ρ hn hr
-        refine neutralTail_val ρ he ?_
-        rw [valZ_bin_mk hl hr', ← ho]
-        have := hxy x
-        rcases hop with rfl | rfl <;> cases s' <;> simp [asZ, opZ] at this ⊢ <;> omega
-      | err e => simp [hn] at he
-      | panic => simp [hn] at he
-    · exact neutralTail_val ρ he h
+    rcases neutralizeRaw_bin_cases op l r with h0 | ⟨x, y, rfl, rfl, rfl, h0⟩
+    · rw [h0] at he; exact neutralizeBin_val ρ he h
+    · rw [h0] at he
+      obtain ⟨_, c', he'⟩ := swapped_ok he
+      refine neutralizeBin_val ρ he' ?_
+      obtain ⟨p, q, hp, hq, ho⟩ := valZ_bin h
+      obtain ⟨a, b, ha, hb, ho2⟩ := valZ_bin hq
+      simp only [valZ, Option.some.injEq] at hp
+      simp only [opZ, Option.some.injEq] at ho ho2
+      rw [valZ_bin_mk hb ha]; simp only [opZ, Option.some.injEq]; omega
+  | neg w =>
+    rcases neutralizeRaw_neg_cases w with h0 | ⟨x, y, rfl, h0⟩
+    · rw [h0] at he
+      simp only [Res.ok.injEq, Prod.mk.injEq] at he
+      obtain ⟨_, rfl⟩ := he; exact h
+    · rw [h0] at he
+      obtain ⟨_, c', he'⟩ := swapped_ok he
+      refine neutralizeBin_val ρ he' ?_
+      obtain ⟨q, hq, rfl⟩ := valZ_neg h
+      obtain ⟨a, b, ha, hb, ho2⟩ := valZ_bin hq
+      simp only [opZ, Option.some.injEq] at ho2
+      rw [valZ_bin_mk hb ha]; simp only [opZ, Option.some.injEq]; omega
   | _ =>
     simp only [neutralizeRaw, Res.ok.injEq, Prod.mk.injEq] at he
     obtain ⟨_, rfl⟩ := he; exact h
@@ -216,9 +242,16 @@ theorem neutralize_val (ρ : Env) (a : Arg) : ∀ (c : Bool) (a' : Arg) (v : Int
     | err e => simp [h1] at he
     | ok p =>
       obtain ⟨c1, v'⟩ := p
-      simp only [h1, Res.ok.injEq, Prod.mk.injEq] at he
-      obtain ⟨_, rfl⟩ := he
-      simp [valZ, ih c1 v' w h1 hw]
+      simp only [h1] at he
+      cases h3 : neutralizeRaw (.neg v') with
+      | panic => simp [h3] at he
+      | err e => simp [h3] at he
+      | ok q =>
+        obtain ⟨c3, a3⟩ := q
+        simp only [h3, Res.ok.injEq, Prod.mk.injEq] at he
+        obtain ⟨_, rfl⟩ := he
+        refine neutralizeRaw_val ρ h3 ?_
+        simp [valZ, ih c1 v' w h1 hw]
   | not a ih =>
     intro c a' v he h
     simp only [valZ] at h
